@@ -104,6 +104,11 @@ func (p *AV1Payloader) Payload(mtu uint16, payload []byte) (payloads [][]byte) {
 				newSequence = false
 				currentPacketOBUHeader = nil
 			}
+		} else if needNewPacket {
+			// Nothing is held back (the OBU before this one was dropped), so there is nothing to
+			// flush: remember that the next OBU written has to start a new packet.
+			startWithNewPacket = true
+			currentPacketOBUHeader = nil
 		}
 
 		// Remember the layer ids only now: the flush above resets them when a new packet starts.
